@@ -566,6 +566,19 @@ def run(ctx, res):
         else:
             res.errors.append("%s accesses the interrupt controller's state (%s) but is not part of the analysed request / delivery paths: not decidable by this rule" % (key, sorted(touch[key])))
     res.floor("bodies touching the controller state", len(touch), 2)
+    # ---- (3b) an accepted request is really entered: Cpu::interrupt is summarised in the controller model above, so the entry
+    # sequence is checked here against the manual's for every vector 1..63 (isa_extra.check_interrupt, also C06) - a vector for
+    # which the function returns Ok without building the frame is a request that was taken from the queue and lost
+    try:
+        import isa_extra
+        ri = isa_extra.check_interrupt(facts)
+        for f_ in ri["findings"]:
+            if "C10" in f_["props"]:
+                res.finding("delivery|entry|" + f_["aspect"], "a request accepted by try_interrupt is not entered for some vector in 1..=63: " + f_["msg"], f_["witness"])
+        res.obligations += ri["ob"][0]
+        res.discharged += ri["ob"][1]
+    except RuntimeError as e_:
+        res.errors.append("interrupt entry: %s" % e_)
     # ---- (4) requesters: the number passed is a constant in 1..=63 - directly, or through parameters of helper functions
     # (followed to the helpers' callers); a computed number is not decided by this rule
     nreq = 0
